@@ -139,6 +139,7 @@ type genOpts struct {
 	allocPct     int
 	bigKey       bool
 	persistHeavy bool
+	focusChild   bool         // tree mode, unread-segment profile: all batches write one child collection
 	script       []scriptStep // when set: the labels to execute, in order
 	wideFirst    bool         // first batch touches every key, later ones one or two
 	blind        bool         // no observation (hence no read) between labels
@@ -158,7 +159,7 @@ type gen struct {
 	o        genOpts
 	universe [][]byte
 	vctr     int
-	nops     int
+	nopsAt   [3]int
 }
 
 func (g *gen) value() []byte {
@@ -173,17 +174,20 @@ func (g *gen) value() []byte {
 	return []byte(fmt.Sprintf("v%d", g.vctr))
 }
 
-func (g *gen) ops(max int) []bop {
+func (g *gen) ops(max int) []bop { return g.opsAt(max, 0) }
+
+// opsAt: the operations of one batch node at the given child depth.
+func (g *gen) opsAt(max, depth int) []bop {
 	n := g.r.intn(max + 1)
-	if g.o.wideFirst {
-		// one wide batch first, narrow ones afterwards: the merger then leaves the old, large
-		// segment alone (calcTargetTopLevel) and it travels down to the persister unmerged
-		if g.nops == 0 {
+	if g.o.wideFirst && depth < len(g.nopsAt) {
+		// one wide batch first (per depth), narrow ones afterwards: the merger then leaves the old,
+		// large segment alone (calcTargetTopLevel) and it travels down to the persister unmerged
+		if g.nopsAt[depth] == 0 {
 			n = len(g.universe)
 		} else {
 			n = 1 + g.r.intn(2)
 		}
-		g.nops++
+		g.nopsAt[depth]++
 	}
 	perm := make([]int, len(g.universe))
 	for i := range perm {
@@ -306,7 +310,16 @@ func (g *gen) batch(depth int) *tbatch {
 	if depth == 0 && g.o.childPct > 0 && g.r.chance(1, 10) {
 		return g.existenceOnly()
 	}
-	b := &tbatch{ops: g.ops(5), alloc: g.r.intn(100) < g.o.allocPct}
+	if depth == 0 && g.o.focusChild {
+		// every batch writes the same child collection (wide first, then narrow: see opsAt), some
+		// the root as well: the child's large old segment reaches the persister unmerged and unread
+		b := &tbatch{kids: []kid{{name: childNames[0], b: &tbatch{ops: g.opsAt(5, 1)}}}}
+		if g.r.chance(1, 3) {
+			b.ops = g.opsAt(2, 2)
+		}
+		return b
+	}
+	b := &tbatch{ops: g.opsAt(5, depth), alloc: g.r.intn(100) < g.o.allocPct}
 	if depth < 2 && g.r.intn(100) < g.o.childPct {
 		names := childNames
 		if depth == 1 {
@@ -502,7 +515,16 @@ func isEmptyStack(s *moss.VerifStack) bool {
 
 // runCollCase generates and executes one case; returns an error only for
 // harness-level failures (timeouts), which are reported in the trace too.
-func runCollCase(w *bufio.Writer, id int, seed uint64, cfg Config, nLabels int, o genOpts) (map[string]int, error) {
+func runCollCase(w *bufio.Writer, id int, seed uint64, cfg Config, nLabels int, o genOpts) (hist map[string]int, err error) {
+	// reading through a handle whose mapping was released faults: reported as a violation, not a crash
+	defer debug.SetPanicOnFault(debug.SetPanicOnFault(true))
+	defer func() {
+		if rec := recover(); rec != nil {
+			w.WriteString(sxString(L("specviolation", "spec:memory-fault", fmt.Sprintf("%q", fmt.Sprint(rec)))) + "\n")
+			w.WriteString("(end)\n")
+			hist, err = map[string]int{}, nil
+		}
+	}()
 	r := newRng(seed)
 	dir := mustMkdirTemp(workDir, "coll")
 	defer os.RemoveAll(dir)
